@@ -365,15 +365,27 @@ func runMgr(in mgrIn) map[string]any {
 	for _, r := range m.Inventory().Status.Objects {
 		table = append(table, recJSON(r))
 	}
+	// all 13 per-outcome results are taken first and looked at afterwards, the way a caller holds several of them at once
+	// (a result must not change because another query was made)
+	var actRes [2][4]object.ObjMetadataSet
+	var rcRes [5]object.ObjMetadataSet
+	for s := 0; s < 2; s++ {
+		for a := 0; a < 4; a++ {
+			actRes[s][a] = withAct(m, s, a)
+		}
+	}
+	for rc := 0; rc < 5; rc++ {
+		rcRes[rc] = withRc(m, rc)
+	}
 	wa := [][]any{}
 	for s := 0; s < 2; s++ {
 		for a := 0; a < 4; a++ {
-			wa = append(wa, []any{s, a, toJids(withAct(m, s, a))})
+			wa = append(wa, []any{s, a, toJids(actRes[s][a])})
 		}
 	}
 	wr := [][]any{}
 	for rc := 0; rc < 5; rc++ {
-		wr = append(wr, []any{rc, toJids(withRc(m, rc))})
+		wr = append(wr, []any{rc, toJids(rcRes[rc])})
 	}
 	return map[string]any{"outs": outs, "final": map[string]any{"table": table, "withact": wa, "withrc": wr}}
 }
